@@ -63,6 +63,34 @@ def inner_config_source(F, ck):
                       'OUTER CONFIGURATION USED: %s passes a %s to %s that does not derive from any of its parameters (it comes from the builder\'s own configuration): the inner proof is then verified under the outer '
                       'circuit\'s parameters (query count, grinding bits, arities), which differ whenever inner and outer configurations differ' % (fn.qual, t, e.q), e.loc())
     ck.floor('R06.6', 'configuration-typed arguments in in-circuit verifier functions', n, 50)
+    # second clause: a function that is handed the INNER configuration must not size anything from the builder's own configuration
+    # (a cap height, a number of wires ...): that value describes the outer circuit
+    m = 0
+    for fn in sorted(F.fns.values(), key=lambda f: f.qual):
+        if fn.crate not in ('plonky2', 'starky') or fn.body is None or not fn.file.endswith(CIRCUIT_FILES):
+            continue
+        ptys = [fn.types[b['t']] if b.get('t') is not None else '' for p in fn.params for b in pat_binds(p)]
+        if not any('CircuitBuilder' in t for t in ptys) or not any((ty_adt(t) or '') in CFG_TYPES for t in ptys):
+            continue
+        m += 1
+        fl = flow.Flow(F, fn)
+        bad = None
+        for e in fl.events:
+            if e.kind != 'call' or e.name in ('assert_failed',) or (fn.name, e.name) in OUTER_CONFIG_OK:
+                continue
+            for v, nd in zip(e.args, e.node.get('a', [])):
+                t = ty_adt(fn.ty(nd) or '') or ''
+                if t in CFG_TYPES or t.endswith('Generator'):
+                    continue      # first clause / a generator struct that merely contains such a value
+                if 'F:CircuitBuilder.config' in flow.flat(v):
+                    bad = (e, fn.ty(nd))
+                    break
+            if bad:
+                break
+        ck.ob('R06.6', 'sizes:%s' % fn.qual, bad is None, 'nothing is sized from the outer configuration' if bad is None else
+              'OUTER CONFIGURATION USED: %s, which is handed the inner circuit\'s configuration, passes a %s taken from the builder\'s own configuration to %s: when inner and outer configurations differ (e.g. another cap height) '
+              'the targets created for the inner proof / verifier data have the wrong shape' % (fn.qual, bad[1], bad[0].q), bad[0].loc() if bad else None)
+    ck.floor('R06.6', 'in-circuit functions that receive an inner configuration', m, 25)
 
 
 def run(F, ck, tier):
